@@ -80,7 +80,7 @@ pub async fn main() -> Result<(), Box<dyn std::error::Error>> {
     let listener = TcpListener::bind(&config.observability.metrics_exporter_listen).await?;
     let mut buf = String::with_capacity(4 * 1024);
 
-    loop {
+    'accept: loop {
         let (mut tcp_stream, _) = listener.accept().await?;
 
         // Wait until a request was sent, dropping the bytes read when this scope ends
@@ -90,7 +90,14 @@ pub async fn main() -> Result<(), Box<dyn std::error::Error>> {
             let mut buf = [0u8; 2048];
             let mut bytes_read = 0;
             loop {
-                bytes_read += tcp_stream.read(&mut buf[bytes_read..]).await?;
+                let n = tcp_stream.read(&mut buf[bytes_read..]).await?;
+                if n == 0 {
+                    // The client closed the connection before its request was
+                    // complete; every further read would return 0 again.
+                    tracing::warn!("Metrics connection closed before the request was complete");
+                    continue 'accept;
+                }
+                bytes_read += n;
 
                 // The headers end with two CRLFs in a row
                 if buf[0..bytes_read].windows(4).any(|w| w == b"\r\n\r\n") {
